@@ -32,7 +32,7 @@ REC = None      # the active Recorder (or None)
 def _new_rec():
     return {'starts': {}, 'finals': {}, 'frames': {}, 'pending': {}, 'await': set(), 'root': None,
             'root_name': None, 'root_final': None, 'requests': {}, 'viol': [], 'checked': 0,
-            'unattributed': 0, 'unobserved': 0}
+            'unattributed': 0, 'unobserved': 0, 'active': {}, 'left_recursion': False}
 
 
 def _scope():
@@ -62,6 +62,12 @@ def _on_start(code, off):
         rec['root_name'] = code.co_name
     if code in R.rule_codes:
         rec['starts'][key] = rec['starts'].get(key, 0) + 1
+        a = rec['active']
+        if a.get(key):
+            # the same rule at the same position is started while its earlier evaluation is still
+            # in progress: left recursion -- not a well-formed PEG, C07 is not judged on this call
+            rec['left_recursion'] = True
+        a[key] = a.get(key, 0) + 1
 
 
 def _on_yield(code, off, val):
@@ -86,6 +92,8 @@ def _on_yield(code, off, val):
         key = rec['frames'].pop(fid, None)
         if key is not None:
             rec['finals'][key] = val
+            if rec['active'].get(key):
+                rec['active'][key] -= 1
         if fid == rec['root']:
             if head:
                 summary = [True, fpm.value_fp(val[1], aliasing=False), val[2]]
@@ -189,6 +197,9 @@ class Recorder:
         rec = fr.rec
         self.awaiting -= len(rec['await'])
         viol = list(rec['viol'])
+        if rec['left_recursion']:
+            r['c07'] = {'left_recursion': True}
+            return
         for (co, pos), n in rec['starts'].items():
             if n > 1:
                 viol.append({'check': 'at-most-once', 'rule': self.rule_codes.get(co, co.co_name), 'pos': pos,
@@ -267,7 +278,10 @@ def amplify(r, e, p, lits):
     if k == 'ref':
         if r.random() < p:
             t1, t2 = r.choice(lits), r.choice(lits)
-            shape = r.choice(['alts', 'expect', 'longest', 'expect-right', 'notnot'])
+            shape = r.choice(['alts', 'expect', 'longest', 'expect-right', 'notnot', 'via-template', 'via-template'])
+            if shape == 'via-template':
+                # the rule is reached once by name through a parameter and once directly
+                return ['alt', ['left', ['call', 'Pt', e], ['lit', t1]], e]
             if shape == 'alts':
                 return ['alt', ['left', e, ['lit', t1]], ['left', e, ['lit', t2]], e]
             if shape == 'expect':
@@ -298,7 +312,9 @@ def amplify(r, e, p, lits):
 
 def family(r, named):
     """Hand-shaped grammar families whose un-memoised evaluation is exponential in the input."""
-    kind = r.choice(['nested-alts', 'lookahead-list', 'rep-choice', 'longest-nest'])
+    kind = r.choice(['nested-alts', 'lookahead-list', 'rep-choice', 'longest-nest', 'shared-prefix-seq'])
+    long_texts = []
+    n_long = r.choice([150, 400, 1200, 3000])
     hook = lambda tag, e: (['right', ['hook', tag], e] if r.random() < 0.8 else e)
     items = []
     table = {}
@@ -318,6 +334,23 @@ def family(r, named):
             t = '(' * d + 'a' + ''.join(r.choice([')', ')x', ')y']) for _ in range(d))
             texts.append(t)
             texts.append(t[:-1] + r.choice(['z', '(', '']))
+        d = n_long
+        long_texts = ['(' * d + 'a' + ')' * d, '(' * d + 'a' + ')x' * d + 'z']
+    elif kind == 'shared-prefix-seq':
+        # the outermost rule itself backtracks over a long body:  [H, B] "." | [H, B] "!" | [H, B]
+        hb = ['seq', ['ref', 'H'], ['ref', 'B']]
+        items.append({'k': 'rule', 'name': 'start', 'expr': ['alt', ['left', hb, ['lit', '.']], ['left', hb, ['lit', '!']], hb]})
+        items.append({'k': 'rule', 'name': 'H', 'expr': hook('h1', ['left', ['re', '[ab]+'], ['lit', '=']])})
+        items.append({'k': 'rule', 'name': 'B', 'expr': hook('h2', ['star', ['ref', 'W']])})
+        if r.random() < 0.5:
+            items.append({'k': 'class', 'name': 'W', 'fields': [
+                {'name': 'h', 'expr': ['hook', 'h3'], 'mod': 'pass'},
+                {'name': 'w', 'expr': ['re', '[a-c]'], 'mod': ''},
+                {'name': 's', 'expr': ['opt', ['lit', ',']], 'mod': ''}]})
+        else:
+            items.append({'k': 'rule', 'name': 'W', 'expr': hook('h3', ['left', ['re', '[a-c]'], ['opt', ['lit', ',']]])})
+        texts = ['ab=a,b,c!', 'ab=abc.', 'a=c,c,c', 'ab=a,b;', 'b=', 'ab=a,b,c,a,b,c,a,b,c?']
+        long_texts = ['ab=' + 'a,b,c,' * (n_long // 3) + '!', 'ab=' + 'abc' * (n_long // 3) + '?']
     elif kind == 'lookahead-list':
         # start = List([Expect(T), T]) ; the result must contain one object twice
         items.append({'k': 'rule', 'name': 'start', 'expr': ['star', ['seq', ['expect', ['ref', 'T']], ['ref', 'T']]]})
@@ -327,45 +360,76 @@ def family(r, named):
             {'name': 'b', 'expr': ['opt', ['ref', 'U']], 'mod': ''}]})
         items.append({'k': 'rule', 'name': 'U', 'expr': hook('h2', ['alt', ['seq', ['lit', '('], ['ref', 'T'], ['lit', ')']], ['lit', ';']])})
         texts = ['ab', 'ab;ba', 'a(b(a;))b;', 'a(b(a(b(a(b))))))', 'ab(', 'a(b(a;)']
+        long_texts = ['ab;' * n_long, 'a(b;)' * n_long + '(']
     elif kind == 'rep-choice':
         # start = List((R << ",") | (R << ";") | R) ; R recursive through the same choice
         items.append({'k': 'rule', 'name': 'start', 'expr': hook('h1', ['star', ['ref', 'I']])})
         items.append({'k': 'rule', 'name': 'I', 'expr': ['alt', ['left', ['ref', 'R'], ['lit', ',']], ['left', ['ref', 'R'], ['lit', ';']], ['ref', 'R']]})
         items.append({'k': 'rule', 'name': 'R', 'expr': hook('h2', ['alt', ['seq', ['lit', '('], ['ref', 'I'], ['lit', ')']], ['re', '[a-c]']])})
         texts = ['a,b;c', '((a,),);', '(((((a)))))', '((((((b;));));));', '(((((c', 'a,(b;(c,(a;)))']
+        long_texts = ['a,b;c' * n_long, '(a,);' * n_long + '(']
     else:
         # Longest(R << "x", R) nested
         items.append({'k': 'rule', 'name': 'start', 'expr': ['ref', 'L']})
         items.append({'k': 'rule', 'name': 'L', 'expr': hook('h1', ['longest', ['left', ['ref', 'R'], ['lit', 'x']], ['ref', 'R'], ['left', ['ref', 'R'], ['lit', 'y']]])})
         items.append({'k': 'rule', 'name': 'R', 'expr': hook('h2', ['alt', ['seq', ['lit', '('], ['ref', 'L'], ['lit', ')']], ['lit', 'a']])})
         texts = ['a', 'ax', '((a)x)y', '(((((a)x)y)x)y)', '((((((((a))))))))', '(((a)x']
+        long_texts = ['(' * n_long + 'a' + ')x' * n_long, '(' * n_long + 'a' + ')' * (n_long - 1)]
     if r.random() < 0.4:
         items.append({'k': 'ignore', 'expr': ['re', ' +']})
         texts = [(' '.join(t) if r.random() < 0.5 else t) for t in texts]
     s = {'named': bool(named), 'extends': None, 'items': items}
     g = spec.Gen(r, features=[])
-    for i, it in enumerate(x for x in items if x['k'] in ('rule', 'class')):
-        g.table[it['name']] = {'rank': float(i), 'nullable': it['name'] == 'start' and kind in ('lookahead-list', 'rep-choice'),
-                               'kind': it['k']}
-    return s, g, texts, kind
+    decls = [x for x in items if x['k'] in ('rule', 'class')]
+    for i, it in enumerate(decls):
+        g.table[it['name']] = {'rank': float(i), 'nullable': True, 'kind': it['k']}
+    # nullability by fixpoint (least: start from "consumes", grow) -- conservative for recursion
+    for it in decls:
+        g.table[it['name']]['nullable'] = False
+    changed = True
+    while changed:
+        changed = False
+        env = g._env()
+        for it in decls:
+            exprs = [it['expr']] if it['k'] == 'rule' else [f['expr'] for f in it['fields']]
+            nb = all(spec.nullable(e, env) for e in exprs)
+            if nb and not g.table[it['name']]['nullable']:
+                g.table[it['name']]['nullable'] = True
+                changed = True
+    return s, g, texts, kind, long_texts
 
 
 def gen_universe(r):
     infos = []
     named0 = r.random() < 0.6
     fam_texts = None
+    long_texts = []
     if r.random() < 0.45:
-        s0, g0, fam_texts, kind = family(r, named0)
+        s0, g0, fam_texts, kind, long_texts = family(r, named0)
     else:
         s0, g0 = spec.gen_root(r, named0, hook_p=0.8)
+        # a pass-through template: the same rule reached by name through a parameter and directly
+        if not any(it.get('name') == 'Pt' for it in s0['items']):
+            s0['items'].append({'k': 'rule', 'name': 'Pt', 'params': ['x'], 'expr': ['left', ['ref', 'x'], ['opt', ['lit', '?']]]})
+            g0.table['Pt'] = {'rank': -1.0, 'nullable': True, 'kind': 'template', 'arg_leftmost': True}
         for it in s0['items']:
             if it['k'] == 'rule' and not it.get('params') and not it.get('ignore'):
                 it['expr'] = amplify(r, it['expr'], 0.5, g0.lits)
+                if it['name'] == 'start' and r.random() < 0.5:
+                    # the outermost rule itself backtracks over everything it has consumed
+                    e = it['expr']
+                    lead = None
+                    if e[0] == 'right' and e[1][0] == 'hook':      # keep the probe at the start of the body
+                        lead, e = e[1], e[2]
+                    e = ['alt', ['left', e, ['lit', r.choice(g0.lits)]], ['left', e, ['lit', r.choice(g0.lits)]], e]
+                    it['expr'] = ['right', lead, e] if lead is not None else e
             elif it['k'] == 'class':
                 for f in it['fields']:
                     f['expr'] = amplify(r, f['expr'], 0.5, g0.lits)
     m0 = C.ModInfo(0, U.PREFIX + 'g0' if named0 else None, None, s0, g0)
     m0.fixed_texts = fam_texts
+    m0.long_texts = long_texts
+    m0.want_long = not fam_texts
     m0.alias_shape = bool(fam_texts) and kind == 'lookahead-list'
     infos.append(m0)
     if named0 and r.random() < 0.35:
@@ -403,6 +467,9 @@ def execute(plan, schedule=None, refs=None):
         c = r.get('c07')
         if c is None:
             continue
+        if c.get('left_recursion'):
+            env.count('calls_skipped_left_recursive_grammar')
+            continue
         env.count('calls')
         env.count('rule_body_starts', c['starts'])
         env.count('references_served_from_memo', c['served'])
@@ -412,6 +479,8 @@ def execute(plan, schedule=None, refs=None):
         env.count('probe_firings', c['probe_firings'])
         if c['served'] > 0:
             env.count('calls_nontrivial')
+        if len(op['text']) >= 300:
+            env.count('long_calls')
         bound = len(rec.rule_codes) * (len(op['text']) + 1)
         if c['starts'] > bound:
             viol.append({'check': 'bound', 'where': where, 'op': U.strip_nests(op), 'starts': c['starts'], 'bound': bound})
@@ -456,8 +525,55 @@ def _pairs_aliased(v):
     return True
 
 
+LONG_P = 0.04
+
+
+def _consumed(out, n):
+    if 'ok' in out:
+        return n
+    if out.get('err') == 'PartialParseError':
+        return out['last_position'][0]
+    if out.get('err') == 'ParseError':
+        return out['position'][0]
+    return 0
+
+
 class Planner(C.Planner):
+    def long_text(self, mid):
+        """A text of thousands of characters that the module consumes to a large part (C07: memo
+        tables bounded 'for memory' only misbehave beyond some input length)."""
+        m = self.infos[mid]
+        if getattr(m, 'long_texts', None):
+            return self.wr.choice(m.long_texts)
+        if not getattr(m, 'want_long', False):
+            return None
+        sm = spec.Sampler(self.wr, m.rules, m.super_rules)
+        best = None
+        for _ in range(3):
+            sm.long_n = self.wr.choice([150, 400, 1200, 3000])
+            sm.budget = 400
+            t = spec.join_tokens(self.wr, sm.item(m.start, 0), m.gaps)[:20000]
+            if len(t) < 300:
+                continue
+            op = {'op': 'parse', 'mod': mid, 'entry': 'parse', 'text': t, 'pos': 0, 'full': True, 'budget': U.HARD_CAP}
+            c = _consumed(self.ref(op)['out'], len(t))
+            if best is None or c > best[0]:
+                best = (c, t)
+        if best is None or best[0] < 200:
+            m.want_long = False
+            return None
+        m.long_texts = [best[1], best[1][:-1] + '\x00']
+        return best[1]
+
     def gen_parse(self, mid, kinds, depth=0):
+        if depth == 0 and self.wr.random() < LONG_P:
+            t = self.long_text(mid)
+            if t is not None:
+                op = {'op': 'parse', 'mod': mid, 'entry': 'parse', 'text': t, 'pos': 0, 'full': True, 'budget': U.HARD_CAP}
+                rec = self.ref(op)
+                op['_steps'] = rec['steps']
+                self.long_ops = getattr(self, 'long_ops', 0) + 1
+                return op
         op = C.Planner.gen_parse(self, mid, kinds, depth)
         m = self.infos[mid]
         if getattr(m, 'alias_shape', False) and op['entry'] == 'parse' and op['pos'] == 0:
@@ -516,7 +632,7 @@ def summarise(r):
     nontrivial_calls = []
     for where, op, rec in r['flat']:
         c = rec.get('c07')
-        if c and c['served'] > 0 and op['op'] == 'parse':
+        if c and c.get('served', 0) > 0 and op['op'] == 'parse':
             nontrivial_calls.append(rngm.digest([plan['universe'][0]['desc'], op['mod'], op['entry'], op['text'],
                                                  op.get('pos'), plan['policy']['kind'], bool(op.get('script'))]))
     s = {
@@ -532,7 +648,7 @@ def summarise(r):
         calls = []
         for where, op, rec in r['flat'][:6]:
             c = rec.get('c07')
-            if c and op['op'] == 'parse':
+            if c and op['op'] == 'parse' and 'starts' in c:
                 calls.append({'where': where, 'entry': op['entry'], 'text': op['text'][:40],
                               'rule_body_starts': c['starts'], 'served_from_memo': c['served'],
                               'answers_checked': c['checked']})
@@ -594,6 +710,8 @@ def coverage(agg):
         'inline_probe_firings': c.get('probe_firings', 0),
         'result_identity_checked': c.get('result_identity_checked', 0),
         'memoless_model_compared': c.get('memoless_compared', 0),
+        'calls_skipped_left_recursive_grammar': c.get('calls_skipped_left_recursive_grammar', 0),
+        'long_input_calls(>=300 chars)': c.get('long_calls', 0),
         'memoless_model_budget_exceeded(exponential_families)': c.get('memoless_budget_exceeded', 0),
         'faults_fired_by_kind': {k: c.get(k, 0) for k in ('preempt', 'user_abort', 'reenter', 'gc')},
         'configurations': {'S0_single_call_baseline_runs': agg['baseline_runs'], 'S0_calls': agg['baseline_calls'],
